@@ -224,8 +224,23 @@ Definition fire_timeout (w : world) (s : nat) : world :=
       mark_done w4 s ECtxCanceled
   end.
 
+(* the external cancellation source: the caller's context is cancelled / reaches its deadline, or -- error
+   ErrExecutionCanceled -- ExecutionResult.Cancel() is called on an async execution: execution.Cancel
+   stores the cancellation result and cancels the execution's context in one critical section
+   (executor.go executeAsync + execution.go Cancel, since the fix: commit for finding F3) *)
 Definition fire_ext (w : world) (e : err) : world :=
-  mark_done (set_scopes w (w_scopes w) (w_seq w) None) 0 e.
+  let w0 := set_scopes w (w_scopes w) (w_seq w) None in
+  match e with
+  | EExecCanceled =>
+      match copy_err w0 0%nat with
+      | Some _ => w0
+      | None =>
+          let w1 := set_cell w0 (Some {| pr_res := 0; pr_err := Some EExecCanceled; pr_done := true; pr_succ := false; pr_all := false |}) in
+          let w2 := set_copy_last w1 0%nat (0, Some EExecCanceled) in
+          mark_done w2 0 ECtxCanceled
+      end
+  | _ => mark_done w0 0 e
+  end.
 
 (* the earliest pending cancellation source: (time, Some scope | None = external) *)
 Fixpoint nt_go (i : nat) (l : list scope) (acc : option (Z * option nat)) : option (Z * option nat) :=
